@@ -325,7 +325,9 @@ where
             return Err(VerifierError::RemainderCommitmentMismatch);
         }
 
-        if remainder_poly.len() > max_degree_plus_1 {
+        // the prover always sends as many coefficients as the remainder domain allows, so when the
+        // degree bound is not of the form 2^k - 1 the coefficients above the bound must be zero
+        if remainder_poly.iter().skip(max_degree_plus_1).any(|&c| c != E::ZERO) {
             return Err(VerifierError::RemainderDegreeMismatch(max_degree_plus_1 - 1));
         }
         let offset: E::BaseField = self.options().domain_offset();
